@@ -140,13 +140,13 @@ def enclosing_stmt(node):
 
 def walk_no_nested(node):
     """ast.walk that does not descend into nested function/class definitions."""
-    stack = list(ast.iter_child_nodes(node))
+    stack = list(ast.iter_child_nodes(node))[::-1]
     while stack:
         n = stack.pop()
         yield n
         if isinstance(n, (ast.FunctionDef, ast.AsyncFunctionDef, ast.ClassDef, ast.Lambda)):
             continue
-        stack.extend(ast.iter_child_nodes(n))
+        stack.extend(list(ast.iter_child_nodes(n))[::-1])
 
 
 def dotted(node):
